@@ -7,7 +7,7 @@ from daemon import standard_hooks
 L01 = ["C01_OrderIds", "C01_CsrNames", "C01_CsrSubject", "C01_CsrDigest", "C01_CsrSelfSig", "C01_CsrKeyIsStoredKey", "C01_KeyReuse"]
 L02 = ["C02_CertIsServedChain", "C02_KeyIsCsrKey"]
 L03 = ["C03_PairOK", "C03_Untouched"]
-L05 = ["C05_ConfiguredType", "C05_Proof", "C05_HooksBeforeReady", "C05_NoHookWhenValid", "C05_CleanSameData", "C05_PostsConfiguredType", "C05_SolvableIsSolved"]
+L05 = ["C05_ConfiguredType", "C05_Proof", "C05_HooksBeforeReady", "C05_NoHookWhenValid", "C05_CleanSameData", "C05_PostsConfiguredType", "C05_SolvableIsSolved", "C10_CleanAfterValidation"]
 L07 = ["C07_HookFailureFailsAttempt", "C07_ExactlyOnePostOp", "C07_SuccessIffInstalled", "C07_FailureCarriesError", "C07_PauseAfterFailure", "C07_Alive", "C07_PostOpReportsResult",
        "C07_HealthySucceeds"]
 ALL = L01 + L02 + L03 + L05 + L07
